@@ -90,10 +90,20 @@ def run_case(case, res):
                             if sergen.shape(t2b) != src:
                                 bad.append(f"[{label}] loading through a Path object differs")
                     else:
-                        fp = io.StringIO()
-                        t.save(fp, meta=user_meta, key_map=km, value_map=vm, **save_kw)
-                        fp.seek(0)
-                        t2 = load_cls.load(fp, file_meta=fmeta, **load_kw)
+                        # an open stream is written and read at its current position: a third of the documents sit
+                        # behind something the application wrote first (in memory, or in a real file opened for update)
+                        r_ = rng.random()
+                        fp = io.StringIO() if r_ < 0.8 else open(os.path.join(tmp, "stream.txt"), "w+", encoding="utf8")
+                        try:
+                            if r_ > 0.6:
+                                fp.write("# application header \u00e4\n[1, 2]\n")
+                                res.count("stream_documents_behind_a_prefix")
+                            start = fp.tell()
+                            t.save(fp, meta=user_meta, key_map=km, value_map=vm, **save_kw)
+                            fp.seek(start)
+                            t2 = load_cls.load(fp, file_meta=fmeta, **load_kw)
+                        finally:
+                            fp.close()
                 except CaseTimeout:
                     raise
                 except Exception:
